@@ -14,6 +14,9 @@ KEYS = ("op", "str", "alphabet", "ignore", "x", "comp", "xs", "size", "ov")
 
 
 def run(ctx):
+    # the slicing ALGORITHM of unchunk (head / inner / tail pieces) reassembles the covered prefix; as-found single-chunk rule = mutant
+    ctx.model_check("Unchunk", "Unchunk_MC.cfg")
+    ctx.spec_mutant("Unchunk", "Unchunk_MC_asfound.cfg", violated="ReassemblesCoveredPrefix")
     cfg = "Codec_MC_quick.cfg" if ctx.quick else "Codec_MC_thorough.cfg"
     std.m1(ctx, "Codec", cfg, "c15", evkeys=KEYS)
 
